@@ -395,41 +395,78 @@ example : viewM (run {} [.new 0 7 [.lit 1], .move 1 0, .update 1 7 [.old 0, .lit
 /-! ## Clauses of the property not carried by a theorem -/
 
 /-
-What the theorems say, read together: in the model M (a store of reference-counted objects `kind, slots, rc`
-with nested references; numbered holders; operations new / lit / alias / move / drop / get / update with an
-in-place path guarded by a uniqueness test) — for EVERY operation list from the empty state, every sound test
-(`U ob → ob.rc = 1`; the code's `rc = 1` is one), every choice of `fast` flags and of moves — after every
-prefix each count equals the number of references, and every holder observes exactly the pure tree the
-persistent semantics S gives it (`inplace_refines_persistent`, `counts_exact`, `view_eq`, `bound_eq`); an update
-yields the update applied to the old pure value and leaves every other holder's value alone, on either path
-(`update_is_fresh_copy`, `inplace_and_copy_agree`); replacing a copy by a move at a use after which the holder
-is not named again changes no other holder's value (`last_use_move_safe`); with an unsound test the refinement
-fails (`inplace_unsound_if_count_wrong`).
+What the theorems say, read together.
+
+(a) Operation lists (this file).  In the model M (a store of reference-counted objects `kind, slots, rc` with nested
+references; numbered holders; operations new / lit / alias / move / drop / get / update with an in-place path guarded
+by a uniqueness test) — for EVERY operation list from the empty state, every sound test (`U ob → ob.rc = 1`), every
+choice of `fast` flags and of moves — after every prefix each count equals the number of references, and every holder
+observes exactly the pure tree the persistent semantics S gives it (`inplace_refines_persistent`, `counts_exact`,
+`view_eq`, `bound_eq`); an update yields the update applied to the old pure value and leaves every other holder's
+value alone, on either path (`update_is_fresh_copy`, `inplace_and_copy_agree`); replacing a copy by a move at a use
+after which the holder is not named again changes no other holder's value (`last_use_move_safe`); with an unsound
+test the refinement fails (`inplace_unsound_if_count_wrong`).
+
+(b) Programs (PropsVM.lean).  `Mach K` is ANY small-step machine whose control sees of the store only the unfolding
+(to a fixed depth) of the holders it names — not identities, not counts; `mach_refines` / `program_refines`: every
+program of every such machine runs in lock step on M and on S (equal control states, exact counts, equal views);
+`program_inplace_eq_copy` / `program_views_eq`: in-place-if-unique primitives and always-copy primitives give the
+same control state and the same value in every holder.  `vm` (VM.lean) is such a machine over the REAL op codes
+(`C01C.Instr`: READLOCAL clones, MOVEREADLOCAL moves and leaves `#<void>`, argument passing moves the callee into
+the frame and leaves the operands in place as the callee's locals, NEWSCLOSURE clones what it captures into the
+closure object, READCAPTURED clones out of it, primitives get the operand slots and `plan` says which one they
+update in place, tail calls / returns / LETENDSCOPE drop exactly the slots that die, `call/cc` clones the whole
+stack into a continuation object and re-entry clones it back): `vm_refines` for every instruction sequence,
+`core_program_inplace_unobservable` for every program of the lowered core compiled by the code generator C01 proves
+correct, `threads_refine` for any number of VM threads sharing the globals under EVERY interleaving of their
+instructions, `vm_inplace_unsound_if_count_wrong` (a continuation re-entered after a last-use update sees `(1 2 2)`
+under a test that ignores the count; `(1 2)` under the real one).  `plan_upd_target` + the generated obligation
+`GenInPlace.stolen_args_match_model`: the argument the model lets a primitive update is the argument whose stack slot
+reaches `Gc::get_mut` / `Gc::make_mut` / the im-lists call in the source of that primitive.
+
+(c) The uniqueness test (C05Link.lean).  `c05_unique_true_total_one`: in every state C05's model of
+`steel_rc::BiasedRc` reaches under any schedule, the last load of `has_unique_ref` answers `true` only when exactly
+one counted reference exists; `soundTest_of_c05` / `inplace_refines_persistent_c05`: a test that answers what C05's
+machine answers at the end of the object's count history is a `SoundTest`, so (a) and (b) hold for it.
 
 NOT carried by any theorem (covered only by the differential correspondence of checks/c03.py, or by another
 property):
 
- * **That a Steel program IS such an operation list**: which holders exist (variables, stack slots, closure
-   captures, containers, continuation frames, thread-held references), when the VM clones, moves or drops them
-   (`MOVEREADLOCAL*`, `call_primitive_mut_func`, primitives taking `&mut SteelVal` and stealing arguments), and
-   which `Src` list each primitive (`hash-insert`, `cons`, `append`, `hash-union`, `string-push`,
-   `#%struct-update`, …) performs is the driver's table, compared with the real engine — not proved.
- * **That the real uniqueness test is sound** (`Gc::get_mut`/`make_mut`/`try_unwrap` → `has_unique_ref` true ⇒
-   exactly one reference): the hypothesis `SoundTest`; it is C05's theorem (and fails there in the merged case,
-   D1).  That every in-place primitive does perform that test is `GenInPlace.tests_are_strong_count_one`, a
-   `decide` on a table extracted by regular expressions.
- * **That the compiler's last-use analysis marks only last uses** (`analysis.rs` `last_usage`): here it is the
-   HYPOTHESIS `hrest` of `last_use_move_safe` (the rest never names the holder); a wrong mark is outside.
- * **Threads**: "which thread holds them" is represented only by the `fast` flag (the test answers `false` for a
-   non-owner); interleavings of count operations of several threads are C05's, there is no concurrency here.
- * **Structural sharing INSIDE a collection** (im-lists nodes, `imbl` HAMT/RRB nodes, each with its own
-   `make_mut`): one object per collection in the model.
- * **The value kinds by name** (lists, pairs, immutable vectors, hash maps, hash sets, strings, immutable
-   struct instances): a `kind` number and a slot list; `equal?`/printed form of the real values is C11's/C12's.
- * **The native tier** (STEEL_JIT on): same model, tied in by running the generated programs under both
-   settings only.
- * **Open continuation marks / `call/cc` frames holding values** as holders: not distinguished from other
-   holders; that capturing a continuation clones what it must is not modelled.
+ * **That the real VM is `vm`**: `VM.lean` is hand-written after `vm.rs`.  It is tied to the code by executing the
+   REAL compiler's listing of generated programs (with analysis.rs's last-usage marks) on it and comparing the result
+   with the real VM's and with S (`bytecode family` of checks/c03.py: every listing so far is inside the model's op
+   codes), and by running the abstract programs compiled through `C01C.compile` — not by proof.  Op codes outside the
+   model (the ~85 specialised ones, NEWBOX/UNBOX/SETBOX: boxed variables are mutable by design, rest arguments), the
+   JIT (`STEEL_JIT`: the same programs run under both settings only) and the real `call/cc` (continuation marks, open
+   vs closed continuations, `dynamic-wind`) are outside; the model's `call/cc` is the specification "capture clones
+   every stack slot", compared with the real engine only through the abstract `kont` programs.
+ * **That the object's count history is a C05 schedule with `rc = total`** (`RcHistory.count_ok`): the product of the
+   two models is not built; C03 counts in `Nat` with atomic clone/drop, C05 proves the biased two-counter protocol for
+   one object.  What is proved is the implication "C05's answer `true` ⇒ `rc = 1`" given that correspondence.
+ * **That the compiler's last-use analysis marks only last uses** (`analysis.rs`): a WRONG mark does not break this
+   property (the slot reads `#<void>` afterwards: C01's concern; `core_program_inplace_unobservable` holds for every
+   marking), but that the marks are right is not proved here.
+ * **Threads below instruction granularity**: `threads_refine` interleaves whole instructions; the interleaving of
+   the count operations inside a clone / drop / uniqueness test is C05's theorem (one object).  A thread-dependent
+   answer of the test (a non-owner is told "shared") is the oracle `VK.fast`.  Channels are modelled as shared
+   globals (a value bound by one thread, read by another); `spawn-native-thread`'s copying of the parent's state
+   is not modelled.  The real engine has an open thread defect that the C03 programs hit (K03b / K15b).
+ * **`#%struct-update`** has no operation in the model's table (`GenInPlace.unmodelledArms`; a directed corpus case calls
+   it).  `hash-union`'s second in-place arm (left shared, right unique: the RIGHT map is updated) IS modelled, as an oracle
+   (`VK.arms`, every choice covered by `vm_refines_from`); that the source takes it exactly when the left map is shared
+   is not modelled (any choice is sound), and that the arm computes the left-biased union is `plan`'s table (differential;
+   the seeded changes C11-n1 / C03-m2 were caught by it).
+ * **Structural sharing INSIDE a collection** (im-lists nodes, `imbl` HAMT/RRB nodes, each with its own `make_mut`):
+   one object per collection in the model; the contract assumed of the libraries is `PersistentLibSpec` (PropsVM.lean).
+   One consequence is MEASURED (thorough tier, counter hook): `cdr` / `rest` of a uniquely held list does not release
+   the removed cell (im-lists keeps it in the chunk), so an element that is a collection keeps a hidden reference while
+   the shrunk list lives: the real VM then answers "shared" where the model (which counts visible references) answers
+   "unique".  The difference is in the safe direction only (real unique ⇒ model unique; checked), and unobservable.
+   On programs without that pattern the real answers of `Gc::get_mut` in vectors.rs / hashmaps.rs / hashsets.rs are
+   the model's in-place / copy decisions, program by program.
+ * **What each primitive computes** (`plan`: which rearrangement of slots `append`, `hash-union`, … perform) and the
+   value kinds by name: the driver's table, compared with the real engine on every run; `equal?` / printed form of
+   the real values is C11's / C12's.
 -/
 
 end SteelVerif.C03
